@@ -10,6 +10,8 @@ pub mod c07_history;
 pub mod c10_history;
 pub mod c11_saveload;
 pub mod c23_bloom;
+pub mod c24_text;
+pub mod c25_marks;
 pub mod c28_rollback;
 pub mod c30_objids;
 pub mod c38_actorseq;
@@ -28,6 +30,8 @@ pub fn registry() -> Vec<Box<dyn Check>> {
         Box::new(c11_saveload::C11),
         Box::new(c11_saveload::C12),
         Box::new(c23_bloom::C23),
+        Box::new(c24_text::C24),
+        Box::new(c25_marks::C25),
         Box::new(c28_rollback::C28),
         Box::new(c30_objids::C30),
         Box::new(c38_actorseq::C38),
